@@ -1109,6 +1109,42 @@ class Engine:
                 if z3.simplify(a.arg(0)).eq(seq):
                     fl = ForallList._made[a.decl().name()]
                     s = s.assume(z3.Implies(a, fl.fn(R, *[a.arg(i) for i in range(1, a.num_args())])))
+        # [x for x in L if c(x)] with a side-effect free condition: the result is empty iff no element of L satisfies c, and every
+        # element of the result satisfies c (filter lemma: induction on L; c is read off the condition evaluated at an arbitrary element)
+        if len(desc.sources) == 1 and desc.sources[0][0] == 'list' and not desc.enumerate and isinstance(e.elt, ast.Name) and isinstance(g.target, ast.Name) \
+                and e.elt.id == g.target.id and len(g.ifs) == 1 and z3.is_expr(x):
+            seq = z3.simplify(self.src_seq(desc.sources[0][0], desc.sources[0][1], st))
+            disj, pure = [], True
+            for (s2, v) in self.ev(g.ifs[0], inner):
+                if isinstance(v, Raise):
+                    pure = False; break
+                if s2.fields is not inner.fields and any(not s2.fields[a].eq(inner.fields.get(a, field0(a))) for a in s2.fields):
+                    pure = False; break
+                if s2.heap != inner.heap and any(k_ not in inner.heap or not (inner.heap[k_] is v_ or (z3.is_expr(v_) and z3.is_expr(inner.heap[k_]) and v_.eq(inner.heap[k_]))) for k_, v_ in s2.heap.items()):
+                    pure = False; break
+                extra = s2.conds[len(inner.conds):]
+                disj.append(z3.And(*extra, self.truthy(v, s2)))
+            if pure and disj:
+                xv = z3.Const(f"filt_x!{next(VAL._fresh)}", V)
+                cterm = z3.substitute(z3.simplify(z3.Or(*disj)), (z3.simplify(x), xv))
+                if k0.get_id() not in VAL._subterm_ids(cterm):
+                    nm = f"filter{next(VAL._fresh)}"
+
+                    def existing(body):
+                        # reuse a declared "all elements satisfy P" predicate whose P is this very condition (so contracts can name it)
+                        probe = z3.Const('filt_probe', V)
+                        want = z3.simplify(z3.substitute(body, (xv, probe)))
+                        for fl in list(ForallList._made.values()):
+                            if not fl.param_sorts:
+                                try:
+                                    if z3.simplify(fl.pred(probe)).eq(want):
+                                        return fl
+                                except Exception:
+                                    pass
+                        return None
+                    none_ = existing(z3.Not(cterm)) or ForallList(nm + '_rejected', lambda y, c=cterm, xv=xv: z3.Not(z3.substitute(c, (xv, y))))
+                    all_ = existing(cterm) or ForallList(nm + '_kept', lambda y, c=cterm, xv=xv: z3.substitute(c, (xv, y)))
+                    s = s.assume(VL.is_nil(R) == none_(seq), all_(R))
         if hook is not None:
             s = hook(self, s, e, desc, R)
         s, r = self.new_ref(s, 'list', V.List(R))
